@@ -90,13 +90,16 @@ static rsize_t MB(long a, int w) { return a < 0 ? MEMMAX + 1 : (rsize_t)a * w; }
 static rsize_t MN(long a, int w) { return a < 0 ? MEMMAX / w + 1 : (rsize_t)a; }
 T(memcpy_s) { r->rc = _memcpy_s_chk(DP(c), MB(c->dmax, 1), SP(c), MN(c->slen, 1), B(c->dbos, 1), B(c->sbos, 1)); }
 T(memmove_s) { r->rc = _memmove_s_chk(DP(c), MB(c->dmax, 1), SP(c), MN(c->slen, 1), B(c->dbos, 1), B(c->sbos, 1)); }
-T(memcpy16_s) { r->rc = _memcpy16_s_chk(DP(c), MB(c->dmax, 2), SP(c), MN(c->slen, 2), B(c->dbos, 2), B(c->sbos, 2)); }
-T(memmove16_s) { r->rc = _memmove16_s_chk(DP(c), MB(c->dmax, 2), SP(c), MN(c->slen, 2), B(c->dbos, 2), B(c->sbos, 2)); }
-T(memcpy32_s) { r->rc = _memcpy32_s_chk(DP(c), MB(c->dmax, 4), SP(c), MN(c->slen, 4), B(c->dbos, 4), B(c->sbos, 4)); }
-T(memmove32_s) { r->rc = _memmove32_s_chk(DP(c), MB(c->dmax, 4), SP(c), MN(c->slen, 4), B(c->dbos, 4), B(c->sbos, 4)); }
+/* a HUGE element count of the 16- / 32-bit functions is realised in two ways, by case id: the limit + 1, and a count whose size in
+   bytes wraps around to a small number (SIZE_MAX / w + 2 elements are 2 * w - ... bytes modulo 2^64): both are above the limit */
+static rsize_t MNW(const case_t *c, long a, int w) { return a < 0 ? ((c->id & 1) ? (rsize_t)-1 / w + 2 : MEMMAX / w + 1) : (rsize_t)a; }
+T(memcpy16_s) { r->rc = _memcpy16_s_chk(DP(c), MB(c->dmax, 2), SP(c), MNW(c, c->slen, 2), B(c->dbos, 2), B(c->sbos, 2)); }
+T(memmove16_s) { r->rc = _memmove16_s_chk(DP(c), MB(c->dmax, 2), SP(c), MNW(c, c->slen, 2), B(c->dbos, 2), B(c->sbos, 2)); }
+T(memcpy32_s) { r->rc = _memcpy32_s_chk(DP(c), MB(c->dmax, 4), SP(c), MNW(c, c->slen, 4), B(c->dbos, 4), B(c->sbos, 4)); }
+T(memmove32_s) { r->rc = _memmove32_s_chk(DP(c), MB(c->dmax, 4), SP(c), MNW(c, c->slen, 4), B(c->dbos, 4), B(c->sbos, 4)); }
 /* wmem*: dmax and smax in wchar_t elements */
-T(wmemcpy_s) { r->rc = _wmemcpy_s_chk(DP(c), MN(c->dmax, 4), SP(c), MN(c->slen, 4), B(c->dbos, 4), B(c->sbos, 4)); }
-T(wmemmove_s) { r->rc = _wmemmove_s_chk(DP(c), MN(c->dmax, 4), SP(c), MN(c->slen, 4), B(c->dbos, 4), B(c->sbos, 4)); }
+T(wmemcpy_s) { r->rc = _wmemcpy_s_chk(DP(c), MN(c->dmax, 4), SP(c), MNW(c, c->slen, 4), B(c->dbos, 4), B(c->sbos, 4)); }
+T(wmemmove_s) { r->rc = _wmemmove_s_chk(DP(c), MN(c->dmax, 4), SP(c), MNW(c, c->slen, 4), B(c->dbos, 4), B(c->sbos, 4)); }
 T(memccpy_s) { r->rc = _memccpy_s_chk(DP(c), MB(c->dmax, 1), SP(c), c->c, MN(c->n, 1), B(c->dbos, 1), B(c->sbos, 1)); }
 /* ---- fill ---- */
 T(memset_s) { r->rc = _memset_s_chk(DP(c), MB(c->dmax, 1), c->c, MN(c->n, 1), B(c->dbos, 1)); }
